@@ -53,6 +53,7 @@ def run(ctx, rep, tier):
     rep.rule("SK", "row lookups by binary search use the key the rows are sorted by", 2)
     rep.rule("DS", "free-space / geometry queries keep no stale derived state (with positive control)", 2)
     rep.rule("RS", "the row sweeps of the legalizers reach every row (upwards to the last row, downwards to row 0)", 4)
+    rep.rule("IB", "the ends of the Tetris free intervals are admissible positions (end + width <= end of the row segment)", 1)
     rep.rule("IE", "Tetris only emits the intersection of two free intervals when it is non-empty", 1)
     rep.rule("TC", "Tetris marks every row strip a multi-row cell covers (recursion / strip loop reaches the topmost strip)", 1)
     rep.rule("OF", "orientation frame of the legalizer's cell sizes: producer (fromIspdCircuit) and consumers (width/height exchanges) agree", 2)
@@ -71,8 +72,10 @@ def run(ctx, rep, tier):
     check_tb(ctx, rep)
     check_orientation_frame(ctx, rep)
     check_strip_coverage(ctx, rep)
+    check_interval_recursion(ctx, rep)
     check_row_sweeps(ctx, rep)
     check_interval_emission(ctx, rep)
+    check_interval_bounds(ctx, rep)
     from . import c15
     c15.check_g12(ctx, c02_relabel(rep, "FS"))
     c15.check_g13(ctx, c02_relabel(rep, "FS"))
@@ -346,8 +349,7 @@ def check_space(ctx, rep):
     for x, c in exits:
         n = g.node_for(x)
         ok = False
-        for ast, val, _e in g.dom_edges(n):
-            cc = canon(ast)
+        for cc, val, _ast, _fl in (ctx.guards(f, x, derived=True) or []):
             if cc[0] == "bin" and cc[1] in ("<", ">=", ">", "<="):
                 txt = pretty(cc)
                 rv, cv_ = ("var", rowp.get("id"), rowp.get("name")), ("var", cellp.get("id"), cellp.get("name"))
@@ -464,7 +466,9 @@ def check_pv(ctx, rep):
         rep.unknown("PV", f.decl, f, "Legalizer construction", "not found")
     for q, cls in (("Legalizer::runTetris", "TetrisLegalizer"), ("Legalizer::runAbacus", "AbacusLegalizer")):
         g = prog.func1(CQ + q)
-        vds = [x for x in walk(g.body) if x.get("kind") == "VarDecl" and cls in qt(x)]
+        from .common import forwarding_target
+        g, _env = forwarding_target(ctx, g)
+        vds = [x for x in walk(g.body) if x.get("kind") == "VarDecl" and cls in (qt(x) + " " + ((x.get("type") or {}).get("desugaredQualType") or ""))]
         if not vds or not children(vds[0]):
             rep.unknown("PV", g.decl, g, "%s construction" % cls, "not found")
             continue
@@ -668,13 +672,12 @@ def check_interval_emission(ctx, rep):
     An inverted interval makes std::clamp return a position that is free on one of the rows only."""
     from ..order import Facts, Prover
     prog = ctx.prog
-    fs = prog.func(CQ + "TetrisLegalizer::getPossibleIntervals", required=False) or []
+    fs = [f_ for f_ in prog.funcs.values() if f_.cls == CQ + "TetrisLegalizer" and f_.body is not None]
     if not fs:
-        rep.unknown("IE", None, None, "getPossibleIntervals", "not found")
+        rep.unknown("IE", None, None, "TetrisLegalizer", "not found")
         return
-    f = fs[0]
     n = 0
-    for x in walk(f.body):
+    for f, x in [(f_, x_) for f_ in fs for x_ in walk(f_.body)]:
         if x.get("kind") != "CXXMemberCallExpr" or callee_info(x)["name"] not in ("emplace_back", "push_back"):
             continue
         a = [canon(y) for y in callee_info(x)["args"]]
@@ -712,4 +715,116 @@ def check_interval_emission(ctx, rep):
             else:
                 rep.unknown("IE", x, f, what, "neither provable nor refutable")
     if n == 0:
-        rep.unknown("IE", f.decl, f, "intersection of intervals", "no [max(b1, b2), min(e1, e2)] emission found (shape changed)")
+        rep.unknown("IE", fs[0].decl, fs[0], "intersection of intervals", "no [max(b1, b2), min(e1, e2)] emission found in TetrisLegalizer (shape changed)")
+
+
+def check_interval_bounds(ctx, rep):
+    """IB. The free intervals of TetrisLegalizer::getPossibleIntervals(w, ...) are consumed by std::clamp(x, b, e): both ends are
+    positions the cell may take. The end of a base interval, built from the right end of a row segment, therefore has to leave room for
+    the whole width: e + w <= rows_[r].maxX follows from its definition and the conditions dominating its emission. A half-open end
+    (maxX - w + 1) lets the clamp put the cell one unit past the end of the segment - into the neighbouring obstruction."""
+    from ..order import Facts, Prover
+    from .common import binding_source
+    prog = ctx.prog
+    fs = prog.func(CQ + "TetrisLegalizer::getPossibleIntervals", required=False) or []
+    users = [f_ for f_ in prog.all_funcs(with_lambdas=True) if f_.body is not None and (f_.cls == CQ + "TetrisLegalizer" or (getattr(f_, "lam_parent", None) is not None and f_.outer.cls == CQ + "TetrisLegalizer"))]
+    closed = 0
+    other = 0
+    for f in users:
+        for x in walk(f.body):
+            if x.get("kind") != "CallExpr" or callee_info(x)["name"] != "clamp":
+                continue
+            a = [canon(y) for y in callee_info(x)["args"]]
+            def pair_member(t, which):
+                # P.first / P.second (also through ->) of one pair-typed expression P
+                return t[0] == "field" and str(t[1]).endswith("pair<int, int>::" + which) or (t[0] == "field" and str(t[1]).split("::")[-1] == which)
+            if len(a) == 3 and all(t[0] == "var" and binding_source(f, t[1]) for t in a[1:]) and \
+                    binding_source(f, a[1][1])[2] is binding_source(f, a[2][1])[2] and binding_source(f, a[1][1])[1] == 0 and binding_source(f, a[2][1])[1] == 1:
+                closed += 1
+            elif len(a) == 3 and pair_member(a[1], "first") and pair_member(a[2], "second") and a[1][2] == a[2][2]:
+                closed += 1
+            else:
+                other += 1
+    if not fs or closed == 0 or other:
+        rep.unknown("IB", None, None, "consumer of the free intervals", "std::clamp(x, begin, end) on the pairs of getPossibleIntervals not found, or another form next to it: "
+                    "whether the interval ends are positions or one past them is not known")
+        return
+    n = 0
+    for f in [f_ for f_ in prog.funcs.values() if f_.cls == CQ + "TetrisLegalizer" and f_.body is not None]:
+        wpar = f.params[0] if f.params else None
+        for x in walk(f.body):
+            if x.get("kind") != "CXXMemberCallExpr" or callee_info(x)["name"] not in ("emplace_back", "push_back"):
+                continue
+            if "pair<int, int>" not in qt(callee_info(x)["obj"] or {}) and "Interval" not in qt(callee_info(x)["obj"] or {}):
+                continue
+            a = [canon(y) for y in callee_info(x)["args"]]
+            if len(a) == 1 and a[0][0] in ("construct", "call", "initlist") and len(a[0]) >= 4:
+                a = [t for t in a[0][2:] if isinstance(t, tuple)][-2:]
+            if len(a) != 2 or (a[0][0] == "call" and a[0][1] == "max"):
+                continue
+            e = expand_locals(ctx, f, a[1])
+            ends = [t for t in subterms(e) if isinstance(t, tuple) and t and t[0] == "field" and str(t[1]).endswith("::maxX")]
+            if wpar is None or len(set(ends)) != 1:
+                continue
+            # the width is the parameter the end is computed from (the first one when none appears)
+            inpar = [p_ for p_ in f.params if any(t == ("var", p_.get("id"), p_.get("name")) for t in subterms(e))]
+            if len(inpar) == 1:
+                wpar = inpar[0]
+            n += 1
+            F = Facts()
+            for gc, val, _a, _b in (ctx.guards(f, x) or []):
+                F.add_cond(expand_locals(ctx, f, gc), val)
+            P = Prover(F, orthant=False)
+            w = ("var", wpar.get("id"), wpar.get("name"))
+            room = ("bin", "-", ends[0], w)
+            what = "base interval ending at %s, consumed by clamp(x, begin, end)" % pretty(e)[:40]
+            if P.prove_ge(room, e):
+                rep.holds("IB", x, f, what, "end + w <= %s: the last admissible position keeps the cell inside the segment" % pretty(ends[0])[:30])
+            else:
+                cm = P.countermodel(room, e)
+                if cm is not None:
+                    rep.violation("IB", x, f, what, "the end is itself a position the clamp can return, and end + w can exceed %s (e.g. %s): the cell sticks out of "
+                                  "the row segment by the difference" % (pretty(ends[0])[:30], ", ".join("%s=%s" % kv for kv in sorted(cm[0].items())[:5])),
+                                  key="TetrisLegalizer::getPossibleIntervals|interval end is not an admissible position")
+                else:
+                    rep.unknown("IB", x, f, what, "neither provable nor refutable")
+    if n == 0:
+        rep.unknown("IB", fs[0].decl, fs[0], "base intervals", "no interval built from the right end of a row segment found (shape changed)")
+
+
+def check_interval_recursion(ctx, rep):
+    """TC (search side). TetrisLegalizer::getPossibleIntervals(w, h, y) intersects the free intervals of the row at y with those of the
+    rows above by calling itself with (h - H, y + H); it may stop only when the remaining height fits the current row (h <= H). A stop
+    decided on a truncating quotient (h / H <= 1) ends one row early for heights that are not a multiple of the row height: the top,
+    partially covered row is never examined and a cell is placed over an obstruction or out of the rows - without any error."""
+    prog = ctx.prog
+    fs = prog.func(CQ + "TetrisLegalizer::getPossibleIntervals", required=False) or []
+    if not fs or len(fs[0].params) < 3:
+        rep.unknown("TC", None, None, "getPossibleIntervals", "not found")
+        return
+    f = fs[0]
+    hv = ("var", f.params[1].get("id"), f.params[1].get("name"))
+    yv = ("var", f.params[2].get("id"), f.params[2].get("name"))
+    H = ("call", CQ + "LegalizerBase::rowHeight", ("this",))
+    rec = [x for x in walk(f.body) if x.get("kind") == "CXXMemberCallExpr" and callee_info(x)["qname"] == f.qname]
+    if not rec:
+        rep.unknown("TC", f.decl, f, "getPossibleIntervals", "no recursive call for the rows above (shape changed)")
+        return
+    for x in rec:
+        a = [expand_locals(ctx, f, canon(t)) for t in callee_info(x)["args"]]
+        ok_args = len(a) >= 3 and a[1] == ("bin", "-", hv, H) and a[2] == ("bin", "+", yv, H)
+        gs = [(expand_locals(ctx, f, gc), val) for gc, val, _a, asr in (ctx.guards(f, x) or []) if not asr]
+        fits, quot = False, None
+        for gc, val in gs:
+            if gc[0] == "bin" and gc[2] == hv and gc[3] == H and ((gc[1] == "<=" and val is False) or (gc[1] == ">" and val is True)):
+                fits = True
+            if any(isinstance(t, tuple) and t and t[0] == "bin" and t[1] == "/" and hv in list(subterms(t[2])) + [t[2]] for t in subterms(gc)):
+                quot = gc
+        what = "getPossibleIntervals looks at the rows above through (h - H, y + H)"
+        if quot is not None and not fits:
+            rep.violation("TC", x, f, what, "only while %s, a truncating quotient of the height by the row height: a height between two multiples of "
+                          "the row height loses its top, partially covered row" % pretty(quot)[:60], key="TetrisLegalizer::getPossibleIntervals|stop on a truncated quotient")
+        elif ok_args and fits:
+            rep.holds("TC", x, f, what, "whenever h > H: every row the cell touches is examined")
+        else:
+            rep.unknown("TC", x, f, what, "arguments %s / stop condition not recognised" % [pretty(t)[:20] for t in a[1:3]])
